@@ -7,7 +7,6 @@ package main
 // R2 byte-order threading.  R3 code/type/flag tables.  R4 hex wraps the same bytes.
 
 import (
-	"go/ast"
 	"go/token"
 	"go/types"
 )
@@ -30,7 +29,7 @@ func checkC05(c *Ctx) {
 	c.Rule("C05.R1", "writer, evaluated with encoding/binary replaced by a typed stream: for model geometries of all seven types (empty members, nested collections) and both byte orders the stream Write produces is the OGC layout U8 order · U32 code · body, counts = number of members that follow, Multi*/Collection members complete WKB of their own, every multi-byte item in the requested order")
 	c.Rule("C05.R2", "reader: Read on each reference stream returns the geometry (type, shape, vertices) and consumes the stream exactly; members written in the other byte order decode correctly (each element is read in the order its own flag announces); point arrays longer than the allocation chunk come back complete")
 	c.Rule("C05.R3", "code and flag tables by behaviour: truncated messages, unknown type codes, flag bytes other than 0/1 and members of the wrong kind are rejected with an error")
-	c.Rule("C05.R4", "hex.Encode is EncodeToString of exactly wkb.Encode's bytes; hex.Decode passes DecodeString's bytes unchanged to wkb.Decode")
+	c.Rule("C05.R4", "model evaluation over the WKB stream model with the standard hexadecimal functions described: hex.Encode returns the lower-case hexadecimal text of exactly wkb.Encode's stream (every model geometry, both byte orders) and an error where wkb.Encode gives one; hex.Decode returns what wkb.Decode returns on the bytes DecodeString gives, and an error — never a panic — for a text that is not hexadecimal")
 	c.Rule("C05.R5", "the bytes/string Encode returns are freshly allocated in the call: they do not share storage with a package-level buffer or a sync.Pool object (an encoding the caller keeps stays the encoding of its geometry)")
 	pk := c.P.Pkg("encoding/wkb")
 	if pk == nil {
@@ -43,7 +42,7 @@ func checkC05(c *Ctx) {
 		return
 	}
 	c05model(c, "C05.R1", "C05.R2", "C05.R3")
-	a.hexWrap()
+	c05hex(c, "C05.R4")
 	checkFreshResult(c, "C05.R5", c.P.Func("encoding/wkb", "Encode"), c.P.Func("encoding/hex", "Encode"))
 	c.Floor("C05.R5", 2)
 	c.Floor("C05.R1", 7)
@@ -81,89 +80,3 @@ type renv struct {
 // ---------------------------------------------------------------- R2
 
 // ---------------------------------------------------------------- R4
-
-func (a *c05) hexWrap() {
-	c := a.c
-	hp := pk(c, "encoding/hex")
-	if hp == nil {
-		c.Unk("C05.R4", "encoding/hex", token.NoPos, "package not loaded")
-		return
-	}
-	info := hp.TypesInfo
-	wkbEncode, wkbDecode := c.P.Func("encoding/wkb", "Encode"), c.P.Func("encoding/wkb", "Decode")
-	// Encode
-	if f := c.P.Func("encoding/hex", "Encode"); f != nil && c.P.Decl(f) != nil {
-		fd := c.P.Decl(f)
-		ps := paramVars(info, fd.Type)
-		sc := newFnScope(info, fd.Body)
-		msg := "does not return hex.EncodeToString(wkb.Encode(g, byteOrder))"
-		ast.Inspect(fd.Body, func(n ast.Node) bool {
-			r, ok := n.(*ast.ReturnStmt)
-			if !ok || len(r.Results) != 2 || !isNilConst(info, r.Results[1]) {
-				return true
-			}
-			call, ok := unparen(r.Results[0]).(*ast.CallExpr)
-			if !ok || !isFuncIn(callee(info, call), "encoding/hex", "EncodeToString") || len(call.Args) != 1 {
-				msg = "success result is `" + src(r.Results[0]) + "`, not encoding/hex.EncodeToString of the WKB bytes (lower-case hexadecimal)"
-				return true
-			}
-			o := objOf(info, call.Args[0])
-			var d ast.Expr
-			if o != nil {
-				d = sc.singleDef(o)
-			}
-			if d == nil {
-				d = call.Args[0]
-			}
-			inner, ok := unparen(d).(*ast.CallExpr)
-			if ok && callee(info, inner) == wkbEncode && len(inner.Args) == 2 && objOf(info, inner.Args[0]) == ps[0] && objOf(info, inner.Args[1]) == ps[1] {
-				msg = ""
-			} else {
-				msg = "the bytes passed to EncodeToString are not wkb.Encode(g, byteOrder)"
-			}
-			return true
-		})
-		if msg == "" {
-			c.OK("C05.R4", "encoding/hex.Encode", fd.Pos(), "EncodeToString(wkb.Encode(g, byteOrder))")
-		} else {
-			c.Bad("C05.R4", "encoding/hex.Encode", fd.Pos(), "%s", msg)
-		}
-	} else {
-		c.Unk("C05.R4", "encoding/hex.Encode", token.NoPos, "API anchor does not resolve")
-	}
-	if f := c.P.Func("encoding/hex", "Decode"); f != nil && c.P.Decl(f) != nil {
-		fd := c.P.Decl(f)
-		ps := paramVars(info, fd.Type)
-		sc := newFnScope(info, fd.Body)
-		msg := "does not return wkb.Decode(hex.DecodeString(s))"
-		ast.Inspect(fd.Body, func(n ast.Node) bool {
-			r, ok := n.(*ast.ReturnStmt)
-			if !ok || len(r.Results) != 1 {
-				return true
-			}
-			call, ok := unparen(r.Results[0]).(*ast.CallExpr)
-			if !ok || callee(info, call) != wkbDecode || len(call.Args) != 1 {
-				return true
-			}
-			o := objOf(info, call.Args[0])
-			var d ast.Expr
-			if o != nil {
-				d = sc.singleDef(o)
-			}
-			inner, ok := unparen(d).(*ast.CallExpr)
-			if d != nil && ok && isFuncIn(callee(info, inner), "encoding/hex", "DecodeString") && len(inner.Args) == 1 && objOf(info, inner.Args[0]) == ps[0] {
-				msg = ""
-			} else {
-				msg = "the bytes passed to wkb.Decode are not hex.DecodeString(s) unchanged"
-			}
-			return true
-		})
-		if msg == "" {
-			c.OK("C05.R4", "encoding/hex.Decode", fd.Pos(), "wkb.Decode(DecodeString(s))")
-		} else {
-			c.Bad("C05.R4", "encoding/hex.Decode", fd.Pos(), "%s", msg)
-		}
-	} else {
-		c.Unk("C05.R4", "encoding/hex.Decode", token.NoPos, "API anchor does not resolve")
-	}
-}
